@@ -10,7 +10,7 @@ LEDGER_DRIVERS = [{"name": "ledger", "args": {"quick": [60, 120], "thorough": [3
 
 
 LEDGER_MODELS = [
-    {"name": "ledger", "module": "Ledger.tla", "cfg": {"quick": "MC_LedgerQuick.cfg", "thorough": "MC_LedgerThorough.cfg"},
+    {"name": "ledger", "module": "MC_Ledger.tla", "cfg": {"quick": "MC_LedgerQuick.cfg", "thorough": "MC_LedgerThorough.cfg"},
      "setup": "setups/ledgermodel.json", "init_from_setup": True, "timeout": {"quick": 900, "thorough": 7200}},
 ]
 
@@ -36,7 +36,48 @@ def ledger_prop(extra_ops=()):
     }
 
 
+RISK_DRIVERS = [{"name": "risk", "args": {"quick": [250], "thorough": [8000]}}]
+
+
+def risk_prop(ops):
+    return {
+        "models": RISK_MODELS,
+        "drivers": RISK_DRIVERS + LEDGER_DRIVERS,
+        "nontrivial": ev_ok(ops),
+        "rule": "each executed instruction is one evaluation; non-trivial = the instructions the property constrains (accepted and rejected, incl. boundary pairs found by binary search); distinct by (instruction, result, error)",
+        "min_nontrivial": 100,
+    }
+
+
+LIQ_DRIVERS = [{"name": "liq", "args": {"quick": [300], "thorough": [6000]}}]
+GATE_MODELS = [
+    {"name": "gate", "module": "Gate.tla", "cfg": {"quick": "MC_GateQuick.cfg", "thorough": "MC_GateThorough.cfg"}, "setup": "setups/gate.json"},
+]
+
+
+RISK_MODELS = [
+    {"name": "riskmodel", "module": "MC_Ledger.tla", "cfg": {"quick": "MC_RiskQuick.cfg", "thorough": "MC_RiskThorough.cfg"},
+     "setup": "setups/riskmodel.json", "init_from_setup": True, "timeout": {"quick": 900, "thorough": 10000}},
+]
+
+
+def risk_prop2(ops, drivers, models=(), minnt=30):
+    return {
+        "models": list(models),
+        "drivers": drivers,
+        "nontrivial": ev_ok(ops),
+        "rule": "each executed instruction is one evaluation; non-trivial = the instructions the property constrains (accepted and rejected, incl. boundary pairs found by binary search); distinct by (instruction, result, error)",
+        "min_nontrivial": minnt,
+    }
+
+
 PROPS = {
+    "C04": risk_prop(["borrow", "withdraw"]),
+    "C05": risk_prop2(["liquidate"], LIQ_DRIVERS + LEDGER_DRIVERS, models=RISK_MODELS),
+    "C07": risk_prop2(["bankruptcy"], LIQ_DRIVERS + LEDGER_DRIVERS, models=RISK_MODELS),
+    "C09": risk_prop2(["borrow", "withdraw", "liquidate", "bankruptcy", "pulse_health"], LIQ_DRIVERS + RISK_DRIVERS + LEDGER_DRIVERS, models=RISK_MODELS),
+    "C13": risk_prop2(["add_bank", "configure_bank", "configure_emode", "borrow", "withdraw", "pulse_health", "bankruptcy"], LIQ_DRIVERS + RISK_DRIVERS, models=RISK_MODELS),
+    "C14": risk_prop2(["deposit", "withdraw", "borrow", "repay", "liquidate", "bankruptcy"], LIQ_DRIVERS, models=GATE_MODELS),
     "C01": ledger_prop(),
     "C02": ledger_prop(),
     "C03": ledger_prop(),
